@@ -15,7 +15,7 @@ C08.f  [sib] payload and void specialisations of updatePlan agree after erasing 
 import itertools
 import re
 
-from lint import facts, ir, effects, anchors, cmpdomain, loops, cfg as cfgmod
+from lint import inline, facts, ir, effects, anchors, cmpdomain, loops, cfg as cfgmod
 from lint.cmpdomain import Obj, Evaluator, NotPure
 from lint.common import AnalysisBroken
 from gen import static_units
@@ -40,6 +40,7 @@ def update_plan_rules(run, F, E):
     names of locals or on the loop's spelling"""
     SUCC = ('core', 'planData', 'tasksSuccesses')
     for fn in F.find('FullControlT', 'updatePlan'):
+        fn = inline.inlined(F, E, fn)      # private helpers extracted from the body are looked through
         c = cfgmod.cfg_of(fn)
         label = 'payload' if not (fn.cls or '').rstrip('> ').endswith('void') else 'void'
         decls = c.events(('decl',))
